@@ -1,5 +1,6 @@
 """C03 Decoder accepts every valid encoding; rejects bad indices / short input."""
 import ast
+import re
 import struct
 
 from sa.loader import AnalysisError, norm, walk_local
@@ -7,7 +8,7 @@ from sa.shapes import consumption, has_unknown, flat
 from sa.cfg import cfg_of
 from sa.callgraph import bind_args
 from sa.spec import avro_wire as spec
-from .common import analysis, R_NAMES, K_NAMES, tokens, names_in
+from .common import analysis, R_NAMES, K_NAMES, tokens, names_in, assigned_values
 from .c01 import check_shapes
 
 PROP = "C03"
@@ -248,6 +249,7 @@ def run(ctx):
                 if isinstance(par, ast.Assign) and len(par.targets) == 1 and isinstance(par.targets[0], ast.Name):
                     var = par.targets[0].id
                 checked = False
+                wrong_bound = []
                 if var is not None:
                     for t in cfg.nodes:
                         if t.kind == "test" and var in names_in(t.ast):
@@ -255,6 +257,18 @@ def run(ctx):
                             has_len = any(isinstance(c, ast.Call) and isinstance(c.func, ast.Name) and c.func.id in ("len", "range") for c in ast.walk(t.ast))
                             if lo is not None and has_len:
                                 checked = True
+                                # the bound is the number of symbols (enum) / of branches (union: the schema is the list itself)
+                                lens = [c.args[0] for c in ast.walk(t.ast) if isinstance(c, ast.Call) and isinstance(c.func, ast.Name) and c.func.id == "len" and len(c.args) == 1]
+                                for la in lens:
+                                    texts = {norm(la)} | ({norm(v) for v in assigned_values(f.node, la.id)} if isinstance(la, ast.Name) and la.id not in f.pos_params else set())
+                                    if _method_name(n) == "read_enum":
+                                        good = any(re.fullmatch(r"\w+\['symbols'\]", x) for x in texts)
+                                        plain = all(re.fullmatch(r"\w+(\['\w+'\])?", x) for x in texts)
+                                    else:
+                                        good = isinstance(la, ast.Name) and la.id in f.pos_params or any(x in f.pos_params for x in texts)
+                                        plain = all(re.fullmatch(r"\w+(\['\w+'\])?", x) for x in texts)
+                                    if not good and plain:
+                                        wrong_bound.append(norm(la))
                     # or handed to a helper that checks it (helper analysed with the parameter tainted)
                     for c in walk_local(f.node):
                         if isinstance(c, ast.Call) and any(isinstance(x, ast.Name) and x.id == var for x in c.args):
@@ -262,6 +276,8 @@ def run(ctx):
                             if cs is not None and cs.kind == "direct" and any(t.mod is f.mod and t.cls is None for t in cs.targets):
                                 checked = checked or _helper_checks(a, cs.targets[0], bind_args(cs.targets[0], c), var)
                 ctx.check("C03.R3", f"{f.qualname}: {norm(n)} is range-checked", checked, f.where(n), f"{f.qualname}: {norm(n)}", "an enum/union index read off the wire is not compared with the number of symbols/branches in this function: an out-of-range index (e.g. in a skipped field) does not raise")
+                if checked:
+                    ctx.check("C03.R3", f"{f.qualname}: {norm(n)} is compared with the number of " + ("symbols" if _method_name(n) == "read_enum" else "branches"), not wrong_bound, f.where(n), f"{f.qualname}: {norm(n)} bound len({', '.join(wrong_bound)})", "the index is compared with the length of something other than the symbol list (enum) / the union itself: an out-of-range index passes or a valid one is refused")
     if n_sinks < 1 or n_sources < 1:
         raise AnalysisError(f"C03.R3 anchors missing: {n_sources} index sources, {n_sinks} subscript sinks")
     ctx.extra["C03.R3"] = {"wire_int_methods": sorted(srcs), "index_sources": n_sources, "subscript_sinks": n_sinks}
@@ -349,6 +365,9 @@ def run(ctx):
         ctx.violation("C03.R4", "read_data converts struct.error", rd.where(), "read_data: no struct.error handler", "a short fixed-width read raises struct.error which is not mapped to EOFError")
     for h in hs:
         ctx.check("C03.R4", "read_data: struct.error handler raises", bool(h.body) and isinstance(h.body[-1], ast.Raise), rd.where(h), f"read_data: except {norm(h.type)}", "the struct.error handler does not re-raise: a truncated value would be returned")
+
+    # ---- shared ----
+    ctx.borrow("C16", {"C16.R3": "C03.R6"}, "under a schema with a logical type the value the reader returns is the converted one: a reader-side conversion on the wrong epoch or unit returns another value than an independent decoder", only=lambda o: ":read_" in o.get("where", ""))
 
 
 def _method_name(call):
